@@ -9,6 +9,8 @@ Driver for C09.  One line = one composition tree (prefix notation) + one history
            | M sel n (name <node>){n}             MultiplexForecaster (sel = name | none)
            | S n (name <node>){n} G tag p q       StackingForecaster
   <op>   ::= fit <series> <fh> | upd <series> <T|F> | pred <fh>
+           | ups <series> <T|F> <fh>                                  update_predict_single
+           | upm <series> <T|F> <s|e> <wl> <step> <sww T|F> <fh|nofh>  update_predict with a Sliding/Expanding splitter
   series = l=v,l=v | -        fh = none | 1,2,3
 
 Answer: the outputs of the calls up to the first failing one (`ok` or the forecast or `E:kind`)
@@ -101,14 +103,32 @@ def parseSeries? (s : String) : Option Series :=
 def parseFh? (s : String) : Option (Option Horizon) :=
   if s == "none" then some none else (parseIntList? s).map some
 
-def parseOps? : List String → Option (List Op)
+/-- what the harness can ask for: a primitive call or one of the combined entry points -/
+inductive DOp
+  | prim (op : Op)
+  | ups (y : Series) (up : Bool) (fh : Option Horizon)
+  /-- `update_predict(y, cv)`; `cv` = Sliding/ExpandingWindowSplitter(fh, window_length, step_length,
+  start_with_window); `fh = none`: default splitter on a forecaster that remembers no horizon -/
+  | upm (y : Series) (up : Bool) (kind : Split.Kind) (wl step : Int) (sww : Bool) (fh : Option Horizon)
+
+def parseOps? : List String → Option (List DOp)
   | [] => some []
   | "fit" :: y :: fh :: rest => do
-      let y ← parseSeries? y; let fh ← parseFh? fh; let r ← parseOps? rest; pure (.fit y fh :: r)
+      let y ← parseSeries? y; let fh ← parseFh? fh; let r ← parseOps? rest; pure (.prim (.fit y fh) :: r)
   | "upd" :: y :: up :: rest => do
-      let y ← parseSeries? y; let up ← parseBool? up; let r ← parseOps? rest; pure (.update y up :: r)
+      let y ← parseSeries? y; let up ← parseBool? up; let r ← parseOps? rest; pure (.prim (.update y up) :: r)
   | "pred" :: fh :: rest => do
-      let fh ← parseFh? fh; let r ← parseOps? rest; pure (.predict fh :: r)
+      let fh ← parseFh? fh; let r ← parseOps? rest; pure (.prim (.predict fh) :: r)
+  | "ups" :: y :: up :: fh :: rest => do
+      let y ← parseSeries? y; let up ← parseBool? up; let fh ← parseFh? fh; let r ← parseOps? rest
+      pure (.ups y up fh :: r)
+  | "upm" :: y :: up :: k :: wl :: step :: sww :: fh :: rest => do
+      let y ← parseSeries? y; let up ← parseBool? up
+      let k ← (if k == "s" then some Split.Kind.sliding else if k == "e" then some Split.Kind.expanding else none)
+      let wl ← parseInt? wl; let step ← parseInt? step; let sww ← parseBool? sww
+      let fh ← (if fh == "nofh" then some none else (parseIntList? fh).map some)
+      let r ← parseOps? rest
+      pure (.upm y up k wl step sww fh :: r)
   | _ => none
 
 def showErr : Err → String
@@ -144,14 +164,63 @@ def showOut : Option Series → String
 
 def showLog (l : Log) : String := if l.isEmpty then "-" else ";".intercalate (l.map showEvent)
 
+/-- run primitive calls; collects every forecast together with the cutoff right after the call -/
+def runSeq (F : Forecaster) : F.S → List Op → List (Option Int × Series) → Log →
+    Except Err (F.S × List (Option Int × Series) × Log)
+  | s, [], acc, log => .ok (s, acc.reverse, log)
+  | s, op :: ops, acc, log =>
+    match (F.step s op).run with
+    | .error e => .error e
+    | .ok ((s', o), l) =>
+      runSeq F s' ops (match o with | some p => (F.cutoff s', p) :: acc | none => acc) (log ++ l)
+
+/-- `_format_moving_cutoff_predictions`: one-step horizons are concatenated into one series; otherwise a
+frame with one column per cutoff (a single column comes back as a series) -/
+def showMoving (fh : Horizon) (preds : List (Option Int × Series)) : String :=
+  if fh.length == 1 then showSeries (preds.flatMap (·.2))
+  else match preds with
+    | [p] => showSeries p.2
+    | _ => "~".intercalate (preds.map (fun p => s!"{p.1.getD 0}>{showSeries p.2}"))
+
+/-- one requested call: output text and log, or the error -/
+def runDOp (F : Forecaster) (s : F.S) : DOp → Except Err (F.S × String × Log)
+  | .prim op =>
+    match (F.step s op).run with
+    | .error e => .error e
+    | .ok ((s', o), l) => .ok (s', showOut o, l)
+  | .ups y up fh =>
+    match runSeq F s (upsOps y up fh) [] [] with
+    | .error e => .error e
+    | .ok (s', preds, l) => .ok (s', showSeries (preds.flatMap (·.2)), l)
+  | .upm y up kind wl step sww fh =>
+    -- check_is_fitted (an empty update changes nothing and fails exactly when the forecaster is not fitted)
+    match (F.update s [] false).run with
+    | .error e => .error e
+    | .ok _ =>
+      if y.isEmpty then .error .value else
+      match fh with
+      | none => .error .value
+      | some raw =>
+        match checkFh raw, Split.windowSplit kind (y.length : Int) raw wl step none sww with
+        | .error e, _ => .error e
+        | _, .error e => .error (splitErr e)
+        | .ok f, .ok folds =>
+          match folds.mapM (fun fo => iloc y fo.1) with
+          | .error e => .error e
+          | .ok windows =>
+            if windows.isEmpty then .error .index else
+            match runSeq F s (upmOps (F.cutoff s) y windows f up) [] [] with
+            | .error e => .error e
+            | .ok (s', preds, l) => .ok (s', showMoving f preds, l)
+
 /-- `logs`: one log per call (reversed), printed separated by ` @ ` -/
-def runOps (F : Forecaster) : F.S → List Op → List String → List Log → String
+def runOps (F : Forecaster) : F.S → List DOp → List String → List Log → String
   | _, [], outs, logs =>
       ";".intercalate outs.reverse ++ " # " ++ " @ ".intercalate (logs.reverse.map showLog)
   | s, op :: ops, outs, logs =>
-    match (F.step s op).run with
+    match runDOp F s op with
     | .error e => ";".intercalate ((showErr e :: outs).reverse)
-    | .ok ((s', o), l) => runOps F s' ops (showOut o :: outs) (l :: logs)
+    | .ok (s', o, l) => runOps F s' ops (o :: outs) (l :: logs)
 
 def splitBar : List String → List String → Option (List String × List String)
   | _, [] => none
